@@ -160,6 +160,8 @@ pub struct TsState {
     pub steps: u64,
     pub switches: u64,
     pub diverged: u64,
+    /// times the token was handed on because its holder was blocked outside the simulator
+    pub stolen: u64,
     /// per site: number of context switches that happened there
     pub switch_sites: BTreeMap<u8, u64>,
     step_budget: u64,
@@ -187,6 +189,7 @@ impl Turnstile {
                 steps: 0,
                 switches: 0,
                 diverged: 0,
+                stolen: 0,
                 switch_sites: BTreeMap::new(),
                 step_budget,
                 started: false,
@@ -229,8 +232,33 @@ impl Turnstile {
             st.current = Some(next);
             self.cv.notify_all();
         }
+        // Wait for all threads. If the token holder makes no step for a long wall-clock time
+        // while other threads are parked, it is blocked in something the simulator does not
+        // own (typically a std Mutex held by a parked thread). Hand the token to a parked
+        // thread so that the lock holder can run on; the blocked thread resumes by itself when
+        // the lock is released and rejoins the protocol at its next yield point. This only
+        // ever happens on code that takes OS locks across yield points; it trades exact
+        // replay of that run for not dead-locking the simulation.
+        let mut last_steps = st.steps;
+        let mut stalled_for = std::time::Duration::ZERO;
+        let tick = std::time::Duration::from_millis(200);
         while !st.live.is_empty() {
-            st = self.cv.wait(st).unwrap();
+            let (g, timeout) = self.cv.wait_timeout(st, tick).unwrap();
+            st = g;
+            if !timeout.timed_out() || st.steps != last_steps {
+                last_steps = st.steps;
+                stalled_for = std::time::Duration::ZERO;
+                continue;
+            }
+            stalled_for += tick;
+            if stalled_for >= std::time::Duration::from_millis(3000) && !st.runnable.is_empty() {
+                let next = *st.runnable.iter().next().unwrap();
+                st.runnable.remove(&next);
+                st.stolen += 1;
+                st.current = Some(next);
+                stalled_for = std::time::Duration::ZERO;
+                self.cv.notify_all();
+            }
         }
     }
 
@@ -244,6 +272,14 @@ impl Turnstile {
             std::panic::panic_any(StepBudgetExceeded);
         }
         st.runnable.insert(tid);
+        if st.current != Some(tid) {
+            // the token was taken from this thread while it was blocked outside the
+            // simulator: just queue up for it again
+            while st.current != Some(tid) {
+                st = self.cv.wait(st).unwrap();
+            }
+            return;
+        }
         let TsState {
             sched,
             runnable,
